@@ -1,0 +1,25 @@
+//go:build verif
+
+package patch
+
+// Contracts for the arm64 jump emitter (checked by /verif/bin/govc with GOARCH=arm64).
+
+//@ func movImm
+//@   props C15
+//@   assigns nothing
+//@   fresh
+//@   requires imm16: val <= 0xFFFF
+//@   ensures len4: len(result) == 4 && cap(result) == 4
+//@   ensures word: le32at(result, 0) == (0x80000000 | uint32(opc&3)<<29 | 0x12800000 | uint32(shift&3)<<21 | uint32(val)<<5 | 26)
+
+//@ func jmpToFunctionValue
+//@   props C15
+//@   assigns nothing
+//@   ensures len24: len(result) == 24
+//@   ensures movz: a64_is_movwide(le32at(result, 0), 2, 0, 26)
+//@   ensures movk1: a64_is_movwide(le32at(result, 4), 3, 1, 26)
+//@   ensures movk2: a64_is_movwide(le32at(result, 8), 3, 2, 26)
+//@   ensures movk3: a64_is_movwide(le32at(result, 12), 3, 3, 26)
+//@   ensures reassembled: a64_movk(a64_movk(a64_movk(a64_movz(a64_imm16(le32at(result, 0)), 0),
+//@     | a64_imm16(le32at(result, 4)), 1), a64_imm16(le32at(result, 8)), 2), a64_imm16(le32at(result, 12)), 3) == uint64(double)
+//@   ensures ldr_br: a64_is_ldr(le32at(result, 16), 26, 10) && a64_is_br(le32at(result, 20), 10)
